@@ -222,4 +222,96 @@ class MarkdownLists(Part):
             ctx.nontrivial = True
 
 
-PARTS = [Measure(), TextMeasure(), StrMeasure(), MarkdownLists()]
+class EditedObjects(Part):
+    name = "edited-objects"
+    rule = ("a renderable with public mutable state - Syntax (code / start_line replaced), Table (add_row / add_column), Tree (add), Columns (add_renderable), Panel (renderable / title "
+            "replaced), Padding (renderable replaced) - is measured and rendered once, then edited through its public API so that it needs more room (more digits in the line-number "
+            "gutter, a longer cell / label / item / title), then measured again with A cells available: the second measurement is within bounds and rendering the edited object at the "
+            "reported maximum (and minimum, when at or above the structural need of the widest word) yields no line wider than that value; non-trivial = the edit made the object wider")
+    budget = {"quick": (4, 300), "thorough": (16, 3000)}
+
+    WORDS = ["a", "bc", "def", "line", "value", "x" * 9, "\u6f22\u5b57", "alpha_beta_gamma", "n" * 17]
+
+    def strategy(self, tier):
+        word = st.sampled_from(self.WORDS)
+        phrase = st.lists(word, min_size=1, max_size=4).map(" ".join)
+        kind = st.sampled_from(["syntax-code", "syntax-code", "syntax-start", "table-row", "table-column", "tree", "columns", "panel-child", "panel-title", "padding"])
+        return st.builds(lambda k, n1, n2, start, a, p1, p2, first, ln: {"kind": k, "n1": n1, "n2": n2, "start": start, "A": a, "p1": p1, "p2": p2, "first": first, "line_numbers": ln},
+                         kind, st.integers(1, 12), st.sampled_from([10, 11, 12, 20, 99, 100, 101, 120, 1000]), st.sampled_from([1, 1, 2, 5, 90, 95, 990]), st.integers(8, 80), phrase, phrase,
+                         st.sampled_from(["measure", "render", "both"]), st.sampled_from([True, True, False]))
+
+    def check(self, spec, ctx):
+        from rich.console import Console
+        from rich.measure import Measurement
+        from rich.syntax import Syntax
+        from rich.table import Table
+        from rich.tree import Tree
+        from rich.columns import Columns
+        from rich.panel import Panel
+        from rich.padding import Padding
+
+        k, A = spec["kind"], spec["A"]
+        p1, p2 = spec["p1"], spec["p2"] + " " + spec["p1"]
+        code = lambda n: "\n".join("v%d = %d" % (i, i) for i in range(n)) + "\n"
+        need = max(OC.width(w) for w in (p1 + " " + p2).split())
+        if k.startswith("syntax"):
+            obj = sut(Syntax, code(spec["n1"]), "python", line_numbers=spec["line_numbers"], start_line=spec["start"] if k == "syntax-code" else 1)
+            need = 12   # the gutter (up to 8 cells for five-digit numbers) and a few cells of code: the structural need of a numbered listing
+        elif k.startswith("table"):
+            obj = sut(Table, "h", "k")
+            sut(obj.add_row, p1, "1")
+        elif k == "tree":
+            obj = sut(Tree, p1)
+        elif k == "columns":
+            obj = sut(Columns, [p1])
+        elif k.startswith("panel"):
+            obj = sut(Panel, p1, title="t", expand=False)
+        else:
+            obj = sut(Padding, p1, (0, 1))
+        con = sut(Console, file=io.StringIO(), width=200, height=25, color_system="truecolor", force_terminal=True, legacy_windows=False, _environ={})
+        if spec["first"] in ("measure", "both"):
+            m0 = sut(Measurement.get, con, obj, A)
+        if spec["first"] in ("render", "both"):
+            sut(lambda: list(con.render(obj, con.options.update(width=A))))
+        before = sut(Measurement.get, con, obj, 200).maximum
+        # the edit
+        if k == "syntax-code":
+            obj.code = code(spec["n2"])
+        elif k == "syntax-start":
+            obj.start_line = max(spec["start"], 2) * 50
+        elif k == "table-row":
+            sut(obj.add_row, p2, "22")
+        elif k == "table-column":
+            sut(obj.add_column, p2)
+        elif k == "tree":
+            sut(sut(obj.add, p2).add, p2 + " z")
+        elif k == "columns":
+            sut(obj.add_renderable, p2)
+        elif k == "panel-child":
+            obj.renderable = p2
+        elif k == "panel-title":
+            obj.title = p2.replace(" ", "_")
+        else:
+            obj.renderable = p2
+        m = sut(Measurement.get, con, obj, A)
+        lo, hi = m.minimum, m.maximum
+        desc = "%s (first use: %s; A=%d; %r -> %r; n1=%d n2=%d start=%d line_numbers=%r)" % (k, spec["first"], A, p1, p2, spec["n1"], spec["n2"], spec["start"], spec["line_numbers"])
+        if not (0 <= lo <= hi <= A):
+            ctx.violation("bounds", "C09/edited/bounds", "after the edit Measurement.get(..., %d) = (%r, %r); %s" % (A, lo, hi, desc))
+            return
+        after = sut(Measurement.get, con, obj, 200).maximum
+        frame = {"table-row": 7, "table-column": 10, "tree": 8, "columns": 0, "panel-child": 4, "panel-title": 4, "padding": 2}.get(k, 0)
+        for label, v in (("maximum", hi), ("minimum", lo)):
+            if v >= max(1, need + frame):
+                con2 = sut(Console, file=io.StringIO(), width=v, height=25, color_system="truecolor", force_terminal=True, legacy_windows=False, _environ={})
+                segs = sut(lambda: list(con2.render(obj, con2.options)))
+                for i, ln in enumerate("".join(sg.text for sg in segs if not sg.is_control).split("\n")):
+                    if OC.width(ln) > v:
+                        ctx.violation("render-at-" + label, "C09/edited/render-%s" % k, "after the edit measured (%d, %d); rendered at the %s %d, line %d is %d cells: %r; %s" % (lo, hi, label, v, i, OC.width(ln), ln, desc))
+                        return
+        ctx.cls(k)
+        if after > before:
+            ctx.nontrivial = True
+
+
+PARTS = [Measure(), TextMeasure(), StrMeasure(), MarkdownLists(), EditedObjects()]
